@@ -141,6 +141,13 @@ Proof.
   - eapply resolve_suffix_inside; eauto using s_lock_slashfree, s_lock_longish.
 Qed.
 
+Lemma exists_call_OpsIn root fs f ex eops :
+  exists_call fs f = (ex, eops) -> SegPrefix root (resolve f) -> OpsIn root eops.
+Proof.
+  unfold exists_call. intros H Hf. destruct (endswith f s_lock); inversion H; subst;
+    [apply OpsIn_nil | now apply OpsIn_one].
+Qed.
+
 Lemma fresh_id_inside cwd sp fs : isabs sp = true -> forall gens acc g f rest ops,
   OpsIn (segments sp) acc ->
   fresh_id true cwd sp fs gens acc = Some (Some (g, f, rest, ops)) ->
@@ -150,9 +157,10 @@ Proof.
   intro Hsp. induction gens as [|g0 gens IH]; intros acc g f rest ops Hacc H; [discriminate|].
   cbn [fresh_id] in H. destruct (get_file_path true cwd sp g0) as [f0|] eqn:E; [|discriminate].
   destruct (get_file_path_inside _ _ _ _ Hsp E) as [I1 I2].
-  assert (Hacc' : OpsIn (segments sp) (acc ++ [(0, f0)]))
-    by (apply OpsIn_app; [assumption|now apply OpsIn_one]).
-  destruct (kexists fs f0).
+  destruct (exists_call fs f0) as [ex eops] eqn:X.
+  assert (Hacc' : OpsIn (segments sp) (acc ++ eops))
+    by (apply OpsIn_app; [assumption|eapply exists_call_OpsIn; eauto]).
+  destruct ex.
   - eapply IH; eauto.
   - inversion H; subst. auto.
 Qed.
@@ -173,11 +181,13 @@ Proof.
     { destruct id as [i|].
       - destruct (get_file_path true cwd sp i) as [f0|] eqn:E; [|discriminate].
         destruct (get_file_path_inside _ _ _ _ Hsp E) as [I1 I2].
-        destruct (kexists fs f0).
-        + inversion Es; subst. split; [now apply OpsIn_one|auto].
-        + destruct (fresh_id true cwd sp fs gens [(0, f0)]) as [[[[[g f'] rest'] ops']|]|] eqn:F;
+        destruct (exists_call fs f0) as [ex eops] eqn:X.
+        pose proof (exists_call_OpsIn _ _ _ _ _ X I1) as OX.
+        destruct ex.
+        + inversion Es; subst. split; [assumption|auto].
+        + destruct (fresh_id true cwd sp fs gens eops) as [[[[[g f'] rest'] ops']|]|] eqn:F;
             try discriminate.
-          inversion Es; subst. eapply fresh_id_inside; eauto. now apply OpsIn_one.
+          inversion Es; subst. eapply fresh_id_inside; eauto.
       - destruct (fresh_id true cwd sp fs gens []) as [[[[[g f'] rest'] ops']|]|] eqn:F;
           try discriminate.
         inversion Es; subst. eapply fresh_id_inside; eauto. apply OpsIn_nil. }
